@@ -1,4 +1,5 @@
 import ACModel.Props.C08
+import ACModel.Proofs.Frame
 /-
   C10 — Features are processed independently; parallel equals sequential
 
@@ -162,6 +163,74 @@ theorem updateAll_perm {α : Type} (st : List (String × α)) (r r' : List (Stri
       intro y hy
       exact hf y (hp.mem_iff.2 hy)
     rw [this]
+
+/-! ## transform: the output column of a feature depends on that feature alone -/
+
+/-- two fitted states agree on everything `transform` reads for the column named `n` -/
+structure AgreeOn (s s' : Disc) (n : String) : Prop where
+  quant : n ∈ s.quant ↔ n ∈ s'.quant
+  qual : n ∈ s.qual ↔ n ∈ s'.qual
+  order : aget? s.orders n = aget? s'.orders n
+  table : aget? s.lpv n = aget? s'.lpv n
+  nan : s.strNan = s'.strNan
+  dflt : s.strDefault = s'.strDefault
+  fd : s.featDropna.find? (fun fd => fd.1 = n) = s'.featDropna.find? (fun fd => fd.1 = n)
+
+theorem colTransform_agree {s s' : Disc} {n : String} (h : AgreeOn s s' n) (c : Col) :
+    colTransform s n c = colTransform s' n c := by
+  have hq : ∀ c, qUpd s n c = qUpd s' n c := by
+    intro c; unfold qUpd; rw [h.order, h.table, h.nan]
+  have hl : ∀ c, lUpd s n c = lUpd s' n c := by
+    intro c; unfold lUpd; rw [h.order, h.table, h.nan, h.dflt]
+  have hn : ∀ (fd : String × Bool) c, fd.1 = n → nUpd s fd c = nUpd s' fd c := by
+    intro fd c hfd; unfold nUpd; rw [hfd, h.table, h.nan]
+  have i1 : ∀ c, (if n ∈ s.quant then qUpd s n c else .ok c) = (if n ∈ s'.quant then qUpd s' n c else .ok c) := by
+    intro c
+    by_cases a : n ∈ s.quant
+    · rw [if_pos a, if_pos (h.quant.1 a), hq]
+    · rw [if_neg a, if_neg (fun x => a (h.quant.2 x))]
+  have i2 : ∀ c, (if n ∈ s.qual then lUpd s n c else .ok c) = (if n ∈ s'.qual then lUpd s' n c else .ok c) := by
+    intro c
+    by_cases a : n ∈ s.qual
+    · rw [if_pos a, if_pos (h.qual.1 a), hl]
+    · rw [if_neg a, if_neg (fun x => a (h.qual.2 x))]
+  have i3 : ∀ c2, (match s.featDropna.find? (fun fd => fd.1 = n) with
+      | some fd => nUpd s fd c2
+      | none => .ok c2) = (match s.featDropna.find? (fun fd => fd.1 = n) with
+      | some fd => nUpd s' fd c2
+      | none => .ok c2) := by
+    intro c2
+    cases hf : s.featDropna.find? (fun fd => fd.1 = n) with
+    | none => rfl
+    | some fd =>
+      have : fd.1 = n := by simpa using List.find?_some hf
+      exact hn fd c2 this
+  unfold colTransform
+  rw [← h.fd, i1]
+  congr 1; funext c1
+  rw [i2]
+  congr 1; funext c2
+  exact i3 c2
+
+/-- **The transform output of a feature depends on that feature alone.**  Two fitted objects that
+    agree on feature `n` (same type, same `values_orders[n]`, same labels, same `features_dropna[n]`)
+    — whatever other features each of them holds, in whatever order — give the same output column
+    `n` on any two frames that agree on column `n`, whatever their other columns are. -/
+theorem transform_column_local (s s' : Disc) (hs : s.Shape) (hs' : s'.Shape) (n : String) (h : AgreeOn s s' n)
+    (x0 x out x0' x' out' : Frame)
+    (hc : s.castFeatures x0 = .ok x) (ht : s.transform x0 = .ok out)
+    (hc' : s'.castFeatures x0' = .ok x') (ht' : s'.transform x0' = .ok out')
+    (hcol : aget? x n = aget? x' n) : aget? out n = aget? out' n := by
+  obtain ⟨_, h1⟩ := FrameLemmas.transform_spec s hs x0 x out hc ht
+  obtain ⟨_, h2⟩ := FrameLemmas.transform_spec s' hs' x0' x' out' hc' ht'
+  cases hx : aget? x n with
+  | none => rw [(h1 n).2 hx, (h2 n).2 (hcol ▸ hx)]
+  | some c =>
+    obtain ⟨c1, e1, o1⟩ := (h1 n).1 c hx
+    obtain ⟨c2, e2, o2⟩ := (h2 n).1 c (hcol ▸ hx)
+    rw [colTransform_agree h c, e2] at e1
+    injection e1 with e1
+    rw [o1, o2, e1]
 
 /-! ## Non-vacuity -/
 example : featureLoop (fun _ (a : Nat) => if a = 0 then none else some (a + 1)) ["b", "a"] [("a", 1), ("b", 0), ("c", 5)] =
